@@ -212,6 +212,9 @@ func (m *Model) Apply(op Op, defVal string) {
 		for j, s := range op.Sub {
 			m.Apply(s, fmt.Sprintf("%s.%d", defVal, j))
 		}
+		if op.Big {
+			m.Pts[PadKey] = "PAD"
+		}
 	case "ingest", "ingestexcise":
 		if op.K == "ingestexcise" {
 			m.excise(op.Key, op.End)
